@@ -188,11 +188,19 @@ func VH_cache_Filled() {
 			break
 		}
 		e := h.ref.es[vChoice("which", len(h.ref.es))]
-		if vChoice("get-or-remove", 2) == 0 {
+		switch vChoice("get-remove-put", 3) {
+		case 2:
+			k := vOrd("fresh")
+			vAssume(h.ref.absent(k))
+			want := h.ref.put(k, 1)
+			vAssert(h.c.Put(k, 1) == want, "Put of a fresh key between touches")
+			h.check("filled/put-between")
+			continue
+		case 0:
 			h.ref.get(e.k)
 			v, ok := h.c.Get(e.k)
 			vAssert(ok && v == e.v, "Get of a present key")
-		} else {
+		default:
 			h.ref.remove(e.k)
 			vAssert(h.c.Remove(e.k), "Remove of a present key")
 		}
